@@ -1,28 +1,345 @@
-(* MDM/Proofs.v — lemmas about MDM/Model.v *)
+(* MDM/Proofs.v — lemmas about MDM/Model.v: accessors, costs, budget, instructions. *)
 From Coq Require Import Lia ZifyBool ZifyN ZifyNat.
 From HostdBase Require Import Base.
 From HostdMDM Require Import Model.
 Local Open Scope N_scope.
 
+(** * hypotheses on what is NOT peer input *)
+Definition two63 : N := 9223372036854775808.
+Definition two127 : N := 170141183460469231731687303715884105728.
+Definition p60 : N := 1152921504606846976.
+Definition p40 : N := 1099511627776.
+
 Definition u64 (n : N) : Prop := n < two64.
 (* Go's len() is an int *)
-Definition pd_ok (d : pdata) : Prop := plen d < 9223372036854775808.
+Definition pd_ok (d : pdata) : Prop := plen d < two63.
 
+(* host-chosen unit prices: below 2^60 H per byte / per call, storage and collateral below
+   2^40 H per byte per block (the defaults are around 2^35) *)
+Record pt_sane (pt : ptable) : Prop := {
+  ps_init : ptInit pt < p60; ps_down : ptDownload pt < p60; ps_up : ptUpload pt < p60;
+  ps_dropb : ptDropBase pt < p60; ps_dropu : ptDropUnit pt < p60; ps_has : ptHasSector pt < p60;
+  ps_readb : ptReadBase pt < p60; ps_readl : ptReadLength pt < p60; ps_rev : ptRevision pt < p60;
+  ps_swap : ptSwap pt < p60; ps_wb : ptWriteBase pt < p60; ps_wl : ptWriteLength pt < p60;
+  ps_store : ptWriteStore pt < p40; ps_coll : ptCollateral pt < p40; ps_h : ptHeight pt < two64 }.
+
+(* collateral the host risks for one appended sector *)
+Definition coll_unit (x : ctx) : N := ptCollateral (xpt x) * SectorSize * xdur x.
+
+Definition ctx_ok (x : ctx) : Prop := pd_ok (xdata x) /\ pt_sane (xpt x) /\ u64 (xdur x).
+
+(* the immediates of an instruction are uint64 fields *)
+Definition instr_wf (i : instr) : Prop :=
+  match i with
+  | IAppendSector a _ | IAppendSectorRoot a _ | IDropSectors a _ | IHasSector a => u64 a
+  | IReadOffset a b _ | ISwapSector a b _ | IStoreSector a b => u64 a /\ u64 b
+  | IReadSector a b c _ | IUpdateSector a b c _ => u64 a /\ u64 b /\ u64 c
+  | IRevision => True
+  | IReadRegistry a b c v => u64 a /\ u64 b /\ u64 c /\ v < 256
+  | IUpdateRegistry a b c d e f g => u64 a /\ u64 b /\ u64 c /\ u64 d /\ u64 e /\ u64 f /\ u64 g
+  end.
+
+(** * arithmetic *)
 Lemma wadd_small : forall a b, a + b < two64 -> wadd a b = a + b.
 Proof. intros a b H. unfold wadd. apply N.mod_small. exact H. Qed.
 
-Ltac bounds :=
-  unfold in_bounds, slice_ok, go_slice, to_array, pd_ok, u64, two64 in *;
-  repeat match goal with
-         | H : context [wadd ?a ?b] |- _ => rewrite (wadd_small a b) in H by (unfold two64; lia)
-         | |- context [wadd ?a ?b] => rewrite (wadd_small a b) by (unfold two64; lia)
-         end.
+Lemma wadd_lt : forall a b, wadd a b < two64.
+Proof. intros. unfold wadd. apply N.mod_lt. unfold two64. lia. Qed.
 
-Lemma pd_fixed_no_panic : forall d off n, pd_ok d -> pd_fixed d off n <> Panic.
+Lemma wsub_small : forall a b, b <= a -> a < two64 -> wsub a b = a - b.
+Proof.
+  intros a b H1 H2. unfold wsub.
+  rewrite (N.mod_small b) by lia.
+  replace (a + two64 - b) with ((a - b) + 1 * two64) by lia.
+  rewrite N.mod_add by (unfold two64; lia). apply N.mod_small. lia.
+Qed.
+
+Lemma cadd_ok : forall a b, a + b < two128 -> cadd a b = Ok (a + b).
+Proof. intros a b H. unfold cadd. destruct (a + b <? two128) eqn:E; [reflexivity|lia]. Qed.
+Lemma csub_ok : forall a b, b <= a -> csub a b = Ok (a - b).
+Proof. intros a b H. unfold csub. destruct (b <=? a) eqn:E; [reflexivity|lia]. Qed.
+Lemma cmul64_ok : forall a b, a * b < two128 -> cmul64 a b = Ok (a * b).
+Proof. intros a b H. unfold cmul64. destruct (a * b <? two128) eqn:E; [reflexivity|lia]. Qed.
+
+Lemma mul_bound : forall a b A B, a < A -> b < B -> a * b < A * B.
+Proof. intros. apply N.mul_lt_mono; assumption. Qed.
+
+Lemma le_num_bound : forall g n off, le_num g off n < 256 ^ N.of_nat n.
+Proof.
+  intros g n. induction n as [|n IH]; intros off.
+  - cbn. lia.
+  - cbn [le_num]. specialize (IH (off + 1)).
+    assert (H : g off mod 256 < 256) by (apply N.mod_lt; lia).
+    rewrite Nat2N.inj_succ, N.pow_succ_r by lia. lia.
+Qed.
+
+Lemma le_num8_u64 : forall g off, le_num g off 8 < two64.
+Proof. intros. pose proof (le_num_bound g 8 off) as H. exact H. Qed.
+
+(** * accessors *)
+Lemma in_bounds_spec : forall len off n, in_bounds len off n = true <-> off + n <= len.
+Proof. intros. unfold in_bounds. lia. Qed.
+
+Lemma pd_fixed_spec : forall d off n,
+  pd_ok d -> pd_fixed d off n = if in_bounds (plen d) off n then Ok tt else Err EInvalid.
 Proof.
   intros d off n Hd. unfold pd_fixed.
-  destruct (in_bounds (plen d) off n) eqn:Hb; cbn [negb]; [|discriminate].
-  unfold in_bounds in Hb. unfold go_slice, slice_ok, to_array.
+  destruct (in_bounds (plen d) off n) eqn:Hb; cbn [negb]; [|reflexivity].
+  apply in_bounds_spec in Hb. unfold go_slice, slice_ok, to_array.
   destruct ((off <=? plen d) && (plen d <=? plen d)) eqn:H1; [|lia].
-  cbn [bind]. destruct (plen d - off <? n) eqn:H2; [lia|discriminate].
+  cbn [bind]. destruct (plen d - off <? n) eqn:H2; [lia|reflexivity].
+Qed.
+
+Lemma pd_uint64_spec : forall d off, pd_ok d ->
+  pd_uint64 d off = if in_bounds (plen d) off 8 then Ok (le_num (pget d) off 8) else Err EInvalid.
+Proof. intros. unfold pd_uint64. rewrite pd_fixed_spec by assumption. destruct (in_bounds _ _ _); reflexivity. Qed.
+
+Lemma pd_hash_spec : forall d off, pd_ok d ->
+  pd_hash d off = if in_bounds (plen d) off 32 then Ok (le_num (pget d) off 32) else Err EInvalid.
+Proof. intros. unfold pd_hash. rewrite pd_fixed_spec by assumption. destruct (in_bounds _ _ _); reflexivity. Qed.
+
+Lemma pd_signature_spec : forall d off, pd_ok d ->
+  pd_signature d off = if in_bounds (plen d) off 64 then Ok tt else Err EInvalid.
+Proof. intros. unfold pd_signature. apply pd_fixed_spec. assumption. Qed.
+
+Lemma pd_sector_spec : forall d off, pd_ok d ->
+  pd_sector d off = if in_bounds (plen d) off SectorSize then Ok tt else Err EInvalid.
+Proof.
+  intros d off Hd. unfold pd_sector.
+  destruct (in_bounds (plen d) off SectorSize) eqn:Hb; cbn [negb]; [|reflexivity].
+  apply in_bounds_spec in Hb. unfold pd_ok, two63 in Hd.
+  rewrite wadd_small by (unfold two64; lia).
+  unfold go_slice, slice_ok, to_array.
+  destruct ((off <=? off + SectorSize) && (off + SectorSize <=? plen d)) eqn:H1; [|lia].
+  cbn [bind]. destruct (off + SectorSize - off <? SectorSize) eqn:H2; [lia|reflexivity].
+Qed.
+
+Lemma pd_bytes_spec : forall d off len, pd_ok d ->
+  pd_bytes d off len = if in_bounds (plen d) off len then Ok len else Err EInvalid.
+Proof.
+  intros d off len Hd. unfold pd_bytes.
+  destruct (in_bounds (plen d) off len) eqn:Hb; cbn [negb]; [|reflexivity].
+  apply in_bounds_spec in Hb. unfold pd_ok, two63 in Hd.
+  rewrite wadd_small by (unfold two64; lia).
+  unfold go_slice, slice_ok.
+  destruct ((off <=? off + len) && (off + len <=? plen d)) eqn:H1; [|lia].
+  cbn [bind]. f_equal. lia.
+Qed.
+
+Lemma pd_unlockkey_spec : forall d off len, pd_ok d ->
+  pd_unlockkey d off len =
+  if (16 <=? len) && in_bounds (plen d) off len then Ok (le_num (pget d) off 16, len - 16) else Err EInvalid.
+Proof.
+  intros d off len Hd. unfold pd_unlockkey.
+  destruct (len <? 16) eqn:H16.
+  - cbn [orb]. replace (16 <=? len) with false by lia. reflexivity.
+  - cbn [orb]. replace (16 <=? len) with true by lia. cbn [andb].
+    destruct (in_bounds (plen d) off len) eqn:Hb; cbn [negb]; [|reflexivity].
+    apply in_bounds_spec in Hb. unfold pd_ok, two63 in Hd.
+    rewrite (wadd_small off 16) by (unfold two64; lia).
+    rewrite (wadd_small off len) by (unfold two64; lia).
+    unfold go_slice, slice_ok.
+    destruct ((off <=? off + 16) && (off + 16 <=? plen d)) eqn:H1; [|lia].
+    cbn [bind].
+    destruct ((off + 16 <=? off + len) && (off + len <=? plen d)) eqn:H2; [|lia].
+    cbn [bind]. f_equal. f_equal. lia.
+Qed.
+
+Lemma run_acc_no_panic : forall a d off len, pd_ok d -> run_acc (a, d, off, len) <> Panic.
+Proof.
+  intros a d off len Hd. unfold run_acc. destruct a.
+  - rewrite pd_uint64_spec by assumption. destruct (in_bounds _ _ _); discriminate.
+  - rewrite pd_hash_spec by assumption. destruct (in_bounds _ _ _); discriminate.
+  - rewrite pd_signature_spec by assumption. destruct (in_bounds _ _ _); discriminate.
+  - rewrite pd_sector_spec by assumption. destruct (in_bounds _ _ _); discriminate.
+  - rewrite pd_bytes_spec by assumption. destruct (in_bounds _ _ _); discriminate.
+  - rewrite pd_unlockkey_spec by assumption. destruct (_ && _); discriminate.
+Qed.
+
+(* what an accepted access needs: offset + size within the data, computed without wrap-around *)
+Definition acc_need (a : acc) (len : N) : N :=
+  match a with AUint64 => 8 | AHash => 32 | ASignature => 64 | ASector => SectorSize | ABytes | AUnlockKey => len end.
+
+Lemma run_acc_ok_iff : forall a d off len, pd_ok d ->
+  (exists v, run_acc (a, d, off, len) = Ok v) <->
+  (off + acc_need a len <= plen d /\ (a = AUnlockKey -> 16 <= len)).
+Proof.
+  intros a d off len Hd. unfold run_acc, acc_need. destruct a.
+  - rewrite pd_uint64_spec by assumption. destruct (in_bounds _ _ _) eqn:E.
+    + apply in_bounds_spec in E. split; [intros _; split; [lia|discriminate]|eauto].
+    + split; [intros [v H]; discriminate|]. intros [H _]. apply in_bounds_spec in H. congruence.
+  - rewrite pd_hash_spec by assumption. destruct (in_bounds _ _ _) eqn:E.
+    + apply in_bounds_spec in E. split; [intros _; split; [lia|discriminate]|cbn; eauto].
+    + split; [intros [v H]; discriminate|]. intros [H _]. apply in_bounds_spec in H. congruence.
+  - rewrite pd_signature_spec by assumption. destruct (in_bounds _ _ _) eqn:E.
+    + apply in_bounds_spec in E. split; [intros _; split; [lia|discriminate]|cbn; eauto].
+    + split; [intros [v H]; discriminate|]. intros [H _]. apply in_bounds_spec in H. congruence.
+  - rewrite pd_sector_spec by assumption. destruct (in_bounds _ _ _) eqn:E.
+    + apply in_bounds_spec in E. split; [intros _; split; [lia|discriminate]|cbn; eauto].
+    + split; [intros [v H]; discriminate|]. intros [H _]. apply in_bounds_spec in H. congruence.
+  - rewrite pd_bytes_spec by assumption. destruct (in_bounds _ _ _) eqn:E.
+    + apply in_bounds_spec in E. split; [intros _; split; [lia|discriminate]|eauto].
+    + split; [intros [v H]; discriminate|]. intros [H _]. apply in_bounds_spec in H. congruence.
+  - rewrite pd_unlockkey_spec by assumption.
+    destruct (16 <=? len) eqn:E16; cbn [andb].
+    + destruct (in_bounds _ _ _) eqn:E.
+      * apply in_bounds_spec in E. split; [intros _; split; [lia|intros _; lia]|cbn; eauto].
+      * split; [intros [v H]; discriminate|]. intros [H _]. apply in_bounds_spec in H. congruence.
+    + split; [intros [v H]; discriminate|]. intros [_ H]. specialize (H eq_refl). lia.
+Qed.
+
+(** * costs *)
+Definition ncoll (c : cost) : N := cBase c + cStorage c + cEgress c + cIngress c.
+Definition utot (u : usage) : N := uRpc u + uStorage u + uEgress u + uIngress u + uRegR u + uRegW u.
+
+(* a cost that one instruction can produce *)
+Definition cost_fits (unit : N) (r : res cost) : Prop :=
+  exists c, r = Ok c /\ ncoll c < two127 /\ cCollateral c <= unit.
+
+Ltac prices H :=
+  destruct H as [Hinit Hdown Hup Hdropb Hdropu Hhas Hreadb Hreadl Hrev Hswap Hwb Hwl Hstore Hcoll Hh];
+  unfold p60, p40 in *.
+
+Lemma write_base_cost_ok : forall pt len, pt_sane pt -> len = SectorSize \/ len = 256 ->
+  exists b, write_base_cost pt len = Ok b /\ b < p60 * 4194305.
+Proof.
+  intros pt len Hs Hl. prices Hs. unfold write_base_cost.
+  assert (Hlen' : (if len mod 4096 =? 0 then len else wadd len (4096 - len mod 4096)) <= SectorSize).
+  { destruct Hl as [-> | ->]; vm_compute; discriminate. }
+  set (len' := if len mod 4096 =? 0 then len else wadd len (4096 - len mod 4096)) in *.
+  assert (H1 : ptWriteLength pt * len' < 1152921504606846976 * 4194305).
+  { apply mul_bound; [assumption|unfold SectorSize in Hlen'; lia]. }
+  rewrite cmul64_ok by (unfold two128; lia). cbn [bind].
+  assert (H2 : ptWriteLength pt * len' <= 1152921504606846976 * 4194304).
+  { apply N.mul_le_mono; [lia|exact Hlen']. }
+  rewrite cadd_ok by (unfold two128; lia).
+  eexists; split; [reflexivity|]. unfold p60. lia.
+Qed.
+
+Lemma mul2_store_ok : forall p d, p < p40 -> d < two64 ->
+  exists s, mul2 p SectorSize d = Ok s /\ s = p * SectorSize * d /\ s < p40 * SectorSize * two64.
+Proof.
+  intros p d Hp Hd. unfold mul2, p40 in *.
+  assert (H1 : p * SectorSize < 1099511627776 * 4194304) by (unfold SectorSize; lia).
+  rewrite cmul64_ok by (unfold two128; lia). cbn [bind].
+  assert (H2 : p * SectorSize * d < (1099511627776 * 4194304) * two64) by (apply mul_bound; assumption).
+  rewrite cmul64_ok by (unfold two128, two64 in *; lia).
+  eexists; split; [reflexivity|split; [reflexivity|]]. unfold SectorSize, two64 in *. lia.
+Qed.
+
+Lemma mul2_coll_ok : forall p d, p < p40 -> p * SectorSize * d < two128 ->
+  mul2 p SectorSize d = Ok (p * SectorSize * d).
+Proof.
+  intros p d Hp H. unfold mul2, p40 in *.
+  assert (H1 : p * SectorSize < 1099511627776 * 4194304) by (unfold SectorSize; lia).
+  rewrite cmul64_ok by (unfold two128; lia). cbn [bind].
+  apply cmul64_ok. assumption.
+Qed.
+
+Ltac cost_finish :=
+  eexists; split; [reflexivity|]; unfold ncoll, two127, two64, SectorSize, blocksPerYear in *; cbn [cBase cStorage cEgress cIngress cCollateral];
+  split; lia.
+
+Lemma append_sector_cost_fits : forall x, ctx_ok x -> coll_unit x < two128 ->
+  cost_fits (coll_unit x) (append_sector_cost (xpt x) (xdur x)).
+Proof.
+  intros x (Hd & Hs & Hdur) Hu. unfold cost_fits, append_sector_cost, coll_unit in *.
+  destruct (write_base_cost_ok (xpt x) SectorSize Hs (or_introl eq_refl)) as (b & -> & Hb).
+  cbn [bind]. pose proof Hs as Hs'. prices Hs.
+  destruct (mul2_store_ok (ptWriteStore (xpt x)) (xdur x)) as (s & -> & _ & Hsb); [unfold p40; assumption|assumption|].
+  cbn [bind]. rewrite mul2_coll_ok by (unfold p40; assumption). cbn [bind].
+  assert (H1 : ptUpload (xpt x) * SectorSize < 1152921504606846976 * 4194305) by (unfold SectorSize; lia).
+  rewrite cmul64_ok by (unfold two128; lia). cbn [bind].
+  unfold p60, p40 in *. cost_finish.
+Qed.
+
+Lemma append_root_cost_fits : forall x, ctx_ok x -> coll_unit x < two128 ->
+  cost_fits (coll_unit x) (append_root_cost (xpt x) (xdur x)).
+Proof.
+  intros x (Hd & Hs & Hdur) Hu. unfold cost_fits, append_root_cost, coll_unit in *.
+  pose proof Hs as Hs'. prices Hs.
+  destruct (mul2_store_ok (ptWriteStore (xpt x)) (xdur x)) as (s & -> & _ & Hsb); [unfold p40; assumption|assumption|].
+  cbn [bind]. rewrite mul2_coll_ok by (unfold p40; assumption). cbn [bind].
+  rewrite cmul64_ok by (unfold two128; lia). cbn [bind].
+  unfold p40 in *. cost_finish.
+Qed.
+
+Lemma drop_sectors_cost_fits : forall x n u, ctx_ok x -> u64 n ->
+  cost_fits u (drop_sectors_cost (xpt x) n).
+Proof.
+  intros x n u (Hd & Hs & Hdur) Hn. unfold cost_fits, drop_sectors_cost, u64 in *. prices Hs.
+  assert (H1 : ptDropUnit (xpt x) * n < 1152921504606846976 * two64) by (apply mul_bound; assumption).
+  unfold two64 in *.
+  rewrite cmul64_ok by (unfold two128; lia). cbn [bind].
+  rewrite cadd_ok by (unfold two128; lia). cbn [bind].
+  rewrite cmul64_ok by (unfold two128; lia). cbn [bind].
+  cost_finish.
+Qed.
+
+Lemma has_sector_cost_fits : forall x u, ctx_ok x -> cost_fits u (has_sector_cost (xpt x)).
+Proof.
+  intros x u (Hd & Hs & Hdur). unfold cost_fits, has_sector_cost. prices Hs.
+  rewrite cmul64_ok by (unfold two128; lia). cbn [bind]. cost_finish.
+Qed.
+
+Lemma read_cost_fits : forall x length arg u, ctx_ok x -> u64 length -> arg <= 32 ->
+  cost_fits u (read_cost (xpt x) length arg).
+Proof.
+  intros x length arg u (Hd & Hs & Hdur) Hn Harg. unfold cost_fits, read_cost, u64 in *. prices Hs.
+  assert (H1 : ptReadLength (xpt x) * length < 1152921504606846976 * two64) by (apply mul_bound; assumption).
+  assert (H2 : ptDownload (xpt x) * length < 1152921504606846976 * two64) by (apply mul_bound; assumption).
+  assert (H3 : ptUpload (xpt x) * arg < 1152921504606846976 * 33) by (apply mul_bound; [assumption|lia]).
+  unfold two64 in *.
+  rewrite cmul64_ok by (unfold two128; lia). cbn [bind].
+  rewrite cadd_ok by (unfold two128; lia). cbn [bind].
+  rewrite cmul64_ok by (unfold two128; lia). cbn [bind].
+  rewrite cmul64_ok by (unfold two128; lia). cbn [bind].
+  cost_finish.
+Qed.
+
+Lemma swap_sector_cost_fits : forall x u, ctx_ok x -> cost_fits u (swap_sector_cost (xpt x)).
+Proof.
+  intros x u (Hd & Hs & Hdur). unfold cost_fits, swap_sector_cost. prices Hs.
+  rewrite cmul64_ok by (unfold two128; lia). cbn [bind]. cost_finish.
+Qed.
+
+Lemma update_sector_cost_fits : forall x length u, ctx_ok x -> u64 length ->
+  cost_fits u (update_sector_cost (xpt x) length).
+Proof.
+  intros x length u (Hd & Hs & Hdur) Hn. unfold cost_fits, update_sector_cost, u64 in *.
+  destruct (write_base_cost_ok (xpt x) SectorSize Hs (or_introl eq_refl)) as (b & -> & Hb).
+  cbn [bind]. prices Hs.
+  assert (H1 : ptUpload (xpt x) * length < 1152921504606846976 * two64) by (apply mul_bound; assumption).
+  unfold two64 in *.
+  rewrite cmul64_ok by (unfold two128; lia). cbn [bind]. cost_finish.
+Qed.
+
+Lemma store_sector_cost_fits : forall x dur u, ctx_ok x -> u64 dur ->
+  cost_fits u (store_sector_cost (xpt x) dur).
+Proof.
+  intros x dur u (Hd & Hs & Hdur) Hn. unfold cost_fits, store_sector_cost, u64 in *.
+  destruct (write_base_cost_ok (xpt x) SectorSize Hs (or_introl eq_refl)) as (b & -> & Hb).
+  cbn [bind]. pose proof Hs as Hs'. prices Hs.
+  destruct (mul2_store_ok (ptWriteStore (xpt x)) dur) as (s & -> & _ & Hsb); [unfold p40; assumption|assumption|].
+  cbn [bind].
+  assert (H1 : ptUpload (xpt x) * SectorSize < 1152921504606846976 * 4194305) by (unfold SectorSize; lia).
+  rewrite cmul64_ok by (unfold two128; lia). cbn [bind].
+  unfold p40 in *. cost_finish.
+Qed.
+
+Lemma revision_cost_fits : forall x u, ctx_ok x -> cost_fits u (revision_cost (xpt x)).
+Proof.
+  intros x u (Hd & Hs & Hdur). unfold cost_fits, revision_cost. prices Hs. cost_finish.
+Qed.
+
+Lemma read_registry_cost_fits : forall x u, ctx_ok x -> cost_fits u (read_registry_cost (xpt x)).
+Proof.
+  intros x u (Hd & Hs & Hdur). unfold cost_fits, read_registry_cost.
+  destruct (write_base_cost_ok (xpt x) 256 Hs (or_intror eq_refl)) as (b & -> & Hb).
+  cbn [bind]. prices Hs.
+  assert (H1 : ptWriteStore (xpt x) * (256 * 10 * blocksPerYear) < 1099511627776 * 134553601).
+  { apply mul_bound; [assumption|vm_compute; reflexivity]. }
+  rewrite cmul64_ok by (unfold two128; lia). cbn [bind].
+  rewrite cmul64_ok by (unfold two128; lia). cbn [bind].
+  cost_finish.
 Qed.
